@@ -152,6 +152,8 @@ def emit(fns, out):
     o.append("pub struct Recv { pub id: u32 }")
     o.append("impl cachelito_core::DefaultCacheableKey for Recv {}")
     o.append("pub static RECV: Recv = Recv { id: 7 };")
+    o.append("pub static RECV2: Recv = Recv { id: 8 };")
+    o.append("pub fn recv(x: u32) -> &'static Recv { if x % 2 == 0 { &RECV } else { &RECV2 } }")
     for f in fns:
         i = f["idx"]
         ret = RET[f["ret"]]
@@ -175,8 +177,8 @@ def emit(fns, out):
     o.append("    match idx {")
     for f in fns:
         i = f["idx"]
-        args = {0: "x", 1: "x, &format!(\"s{}\", x)", 2: "x", 3: "", 4: "x, true, 'c', Some(x)"}[f["sig"]]
-        callee = ("RECV.f%d(%s)" if f["sig"] == 2 else "f%d(%s)") % (i, args)
+        args = {0: "x", 1: "x, &format!(\"s{}\", x)", 2: "x / 2", 3: "", 4: "x, true, 'c', Some(x)"}[f["sig"]]
+        callee = ("recv(x).f%d(%s)" if f["sig"] == 2 else "f%d(%s)") % (i, args)
         if f["flavour"] == "a":
             callee = "rt::block_on(%s)" % callee
         o.append("        %d => rt::Ret::from_val(&%s)," % (i, callee))
@@ -189,7 +191,7 @@ def emit(fns, out):
         i = f["idx"]
         e = {0: 'format!("{:?}", x)',
              1: 'format!("{:?}|{:?}", x, format!("s{}", x).as_str())',
-             2: 'format!("{:?}|{:?}", RECV, x)',
+             2: 'format!("{:?}|{:?}", recv(x), x / 2)',
              3: "String::new()",
              4: 'format!("{:?}|{:?}|{:?}|{:?}", x, true, \'c\', Some(x))'}[f["sig"]]
         o.append("        %d => %s," % (i, e))
